@@ -13,7 +13,7 @@ From Coq Require Import List String NArith ZArith Bool Lia.
 From Coq.Strings Require Import Byte.
 From SP Require Import Bytes Consts Params Msgpack Crypto Errors Nonce Packets Verify Decrypt Signcrypt GoLang GoAst GoAstProofs.
 Import ListNotations.
-Open Scope string_scope.
+Local Open Scope string_scope.
 
 (* ---------- stepping tactics: as [go1]/[run2] of GoAstProofs.v, but with the crypto primitives, the
    byte-string primitives and the model functions kept folded, and closed list/integer primitives
